@@ -70,6 +70,7 @@ class C06(Check):
             mults = [int(t.unit_value(b.multiplier)) for b in E.ballots]
             nb = len(rankings)
             reweights = [0] * nb
+            zero_trunc = set()
             bad = False
             prev = None
             prevkey = None
@@ -160,6 +161,8 @@ class C06(Check):
                                          % (k, new, float(ideal)), s)
                                 if new < old:
                                     reweights[k] += 1
+                                    if new == 0 and sigma > 0:
+                                        zero_trunc.add(rule)
                         else:
                             viol('moved-from-continuing', 'ballots moved away from %s who is %s' % (x, s.st[x]), s)
                 key = h64((tuple(sorted(s.st.items())), tuple(sorted(s.vote.items())), bl))
@@ -170,6 +173,8 @@ class C06(Check):
                 prev = s
             if not bad and t.ok():
                 acc.traces_validated += 1
+            for r in zero_trunc:
+                acc.stats['counts_with_value_truncated_to_zero_by_positive_surplus|%s' % r] += 1
             mx = max(reweights) if reweights else 0
             if mx:
                 acc.nontrivial.add(h64((case['n'], case['s'], case['b'], case.get('tie'), case.get('wd'), case.get('ud'), configs.cfg_key(cfg))))
